@@ -21,6 +21,9 @@ fn lattice(n: usize, lo: f32, hi: f32) -> Vec<[f32; 3]> {
 }
 
 fn xyb_of(px: &[[f32; 3]], w: usize, h: usize) -> Result<Vec<[f32; 3]>, &'static str> {
+    crate::util::guard2(|| xyb_of_inner(px, w, h))
+}
+fn xyb_of_inner(px: &[[f32; 3]], w: usize, h: usize) -> Result<Vec<[f32; 3]>, &'static str> {
     let lin = LinearRgb::new(px.to_vec(), w, h).map_err(|_| "ctor")?;
     let x = Xyb::from(lin);
     if x.width() != w || x.height() != h || x.data().len() != px.len() {
@@ -29,6 +32,9 @@ fn xyb_of(px: &[[f32; 3]], w: usize, h: usize) -> Result<Vec<[f32; 3]>, &'static
     Ok(x.data().to_vec())
 }
 fn lin_of_xyb(px: &[[f32; 3]], w: usize, h: usize) -> Result<Vec<[f32; 3]>, &'static str> {
+    crate::util::guard2(|| lin_of_xyb_inner(px, w, h))
+}
+fn lin_of_xyb_inner(px: &[[f32; 3]], w: usize, h: usize) -> Result<Vec<[f32; 3]>, &'static str> {
     let x = Xyb::new(px.to_vec(), w, h).map_err(|_| "ctor")?;
     let l = LinearRgb::from(x);
     if l.width() != w || l.height() != h || l.data().len() != px.len() {
@@ -153,6 +159,9 @@ pub fn gen_c05(sh: &mut Shards, o: &Opts) -> serde_json::Value {
 
 // ------------------------------------------------------------------------------------------
 fn prim_to709(c: u8, px: &[[f32; 3]], w: usize, h: usize) -> Result<Vec<[f32; 3]>, &'static str> {
+    crate::util::guard2(|| prim_to709_inner(c, px, w, h))
+}
+fn prim_to709_inner(c: u8, px: &[[f32; 3]], w: usize, h: usize) -> Result<Vec<[f32; 3]>, &'static str> {
     let rgb = Rgb::new(px.to_vec(), w, h, tc(8), cp(c)).map_err(|_| "ctor")?;
     match LinearRgb::try_from(rgb) {
         Ok(l) => {
@@ -165,6 +174,9 @@ fn prim_to709(c: u8, px: &[[f32; 3]], w: usize, h: usize) -> Result<Vec<[f32; 3]
     }
 }
 fn prim_from709(c: u8, px: &[[f32; 3]], w: usize, h: usize) -> Result<Vec<[f32; 3]>, &'static str> {
+    crate::util::guard2(|| prim_from709_inner(c, px, w, h))
+}
+fn prim_from709_inner(c: u8, px: &[[f32; 3]], w: usize, h: usize) -> Result<Vec<[f32; 3]>, &'static str> {
     let lin = LinearRgb::new(px.to_vec(), w, h).map_err(|_| "ctor")?;
     match Rgb::try_from((lin, tc(8), cp(c))) {
         Ok(r) => {
@@ -229,6 +241,9 @@ pub fn gen_c06(sh: &mut Shards, o: &Opts) -> serde_json::Value {
 
 // ------------------------------------------------------------------------------------------
 fn hsl_of(px: &[[f32; 3]], w: usize, h: usize) -> Result<Vec<[f32; 3]>, &'static str> {
+    crate::util::guard2(|| hsl_of_inner(px, w, h))
+}
+fn hsl_of_inner(px: &[[f32; 3]], w: usize, h: usize) -> Result<Vec<[f32; 3]>, &'static str> {
     let lin = LinearRgb::new(px.to_vec(), w, h).map_err(|_| "ctor")?;
     let x = Hsl::from(lin);
     if x.width() != w || x.height() != h || x.data().len() != px.len() {
@@ -237,6 +252,9 @@ fn hsl_of(px: &[[f32; 3]], w: usize, h: usize) -> Result<Vec<[f32; 3]>, &'static
     Ok(x.data().to_vec())
 }
 fn lin_of_hsl(px: &[[f32; 3]], w: usize, h: usize) -> Result<Vec<[f32; 3]>, &'static str> {
+    crate::util::guard2(|| lin_of_hsl_inner(px, w, h))
+}
+fn lin_of_hsl_inner(px: &[[f32; 3]], w: usize, h: usize) -> Result<Vec<[f32; 3]>, &'static str> {
     let x = Hsl::new(px.to_vec(), w, h).map_err(|_| "ctor")?;
     let l = LinearRgb::from(x);
     if l.width() != w || l.height() != h || l.data().len() != px.len() {
